@@ -1,1 +1,70 @@
-(* C13 *)
+(* C13 - declarations reach the generated signature unchanged.  Theorems only. *)
+From Coq Require Import Lia.
+From Ructe Require Import Nom NomFacts Utf8 Spacelike Expression TemplateExpr Template Emit ParserProofs EmitProofs.
+Local Open Scope list_scope.
+
+Section C13.
+  Variable uni_esc : N -> bool.
+
+  (* the generated function takes the sink first and then exactly the declared parameters, in
+     declared order, one per line; every use line becomes `<line>;` on its own line, in order;
+     the lifetime list is copied *)
+  Theorem signature_shape : forall (t : template_t) (name : bytes),
+    write_rust uni_esc t name =
+      b "use std::io::{self, Write};" ++ nl ++ b "#[allow(clippy::useless_attribute, unused)]" ++ nl ++ b "use super::{Html,ToHtml};" ++ nl ++
+      flat_map (fun l => l ++ b ";" ++ nl) (preamble t) ++
+      nl ++ b "#[allow(clippy::used_underscore_binding)]" ++ nl ++
+      b "pub fn " ++ name ++ b "<" ++ type_args t ++ (match type_args t with [] => [] | _ => b ", " end) ++ b "W>(" ++
+      nl ++ b "  #[allow(unused_mut)] mut _ructe_out_: W," ++ nl ++
+      flat_map (fun a => b "  " ++ arg_code a ++ b "," ++ nl) (args t) ++
+      b ") -> io::Result<()>" ++ nl ++ b "where W: Write {" ++ nl ++ codes uni_esc (body t) ++ b "Ok(())" ++ nl ++ b "}" ++ nl.
+  Proof. exact (write_rust_shape uni_esc). Qed.
+End C13.
+
+(* a parameter is copied verbatim unless it is <name>:<type> whose type, trimmed, is exactly
+   `Content` (split at the first colon); then, and only then, it becomes the block parameter.
+   Types that merely begin with or contain the word are therefore left alone. *)
+Theorem param_verbatim_or_content : forall a : bytes,
+  (arg_code a = a /\
+     forall name ty, a = name ++ 58%N :: ty -> Forall (fun c => c <> 58%N) name -> trim ty <> b "Content") \/
+  (exists name ty, a = name ++ 58%N :: ty /\ Forall (fun c => c <> 58%N) name /\ trim ty = b "Content" /\
+                   arg_code a = name ++ b ": impl FnOnce(&mut W) -> io::Result<()>").
+Proof. exact arg_code_cases. Qed.
+
+(* what the parser stores for a parameter is the declaration's own text, and what it stores for a
+   use line is the text between `@` and `;` *)
+Theorem formal_argument_is_source_slice : forall TY, (forall x, good (TY x)) -> forall i a r,
+  formal_argument TY i = Ok a r -> i = a ++ r /\ utf8_valid a = true.
+Proof. exact formal_argument_slice. Qed.
+Theorem use_line_is_source_slice : forall i l r, use_line i = Ok l r ->
+  exists ws, i = b "@" ++ l ++ b ";" ++ ws ++ r /\ utf8_valid l = true /\ l <> [] /\ Forall (fun c => mem c (b ";()") = false) l.
+Proof. exact use_line_slice. Qed.
+
+(* the substring replacement of the pinned commit did both things wrong *)
+Fixpoint legacy_replace (fuel : nat) (pat to s : bytes) : bytes :=
+  match fuel with O => s | S f =>
+  match s with
+  | [] => []
+  | c :: r => match strip_prefix pat s with
+              | Some rest => to ++ legacy_replace f pat to rest
+              | None => c :: legacy_replace f pat to r
+              end
+  end end.
+Definition legacy_arg_code (a : bytes) := legacy_replace (S (length a)) (b " Content") (b " impl FnOnce(&mut W) -> io::Result<()>") a.
+Lemma legacy_content_rewrite_refuted :
+  legacy_arg_code (b "a: ContentType") = b "a: impl FnOnce(&mut W) -> io::Result<()>Type" /\
+  legacy_arg_code (b "b:Content") = b "b:Content".
+Proof. vm_compute. split; reflexivity. Qed.
+Example content_examples :
+  arg_code (b "a: ContentType") = b "a: ContentType" /\
+  arg_code (b "b:Content") = b "b: impl FnOnce(&mut W) -> io::Result<()>" /\
+  arg_code (b "c : Content") = b "c : impl FnOnce(&mut W) -> io::Result<()>" /\
+  arg_code (b "d: &Content") = b "d: &Content" /\ arg_code (b "e: Vec<Content>") = b "e: Vec<Content>" /\
+  arg_code (b "f: MyContent") = b "f: MyContent" /\ arg_code (b "g: Contents") = b "g: Contents".
+Proof. vm_compute. repeat split; reflexivity. Qed.
+
+Redirect "assumptions/C13.signature_shape" Print Assumptions signature_shape.
+Redirect "assumptions/C13.param_verbatim_or_content" Print Assumptions param_verbatim_or_content.
+Redirect "assumptions/C13.formal_argument_is_source_slice" Print Assumptions formal_argument_is_source_slice.
+Redirect "assumptions/C13.use_line_is_source_slice" Print Assumptions use_line_is_source_slice.
+Redirect "assumptions/C13.legacy_content_rewrite_refuted" Print Assumptions legacy_content_rewrite_refuted.
